@@ -9,9 +9,11 @@ def Ev.execId : Ev → Option Nat
   | .exec b _ => some b.id
   | _ => none
 
-/-- `false` exactly for an execution attempted while the parent was unknown -/
+/-- `false` exactly for a block handed to the importer, or an execution attempted, while the parent
+    was unknown -/
 def Ev.flagOk : Ev → Bool
   | .exec _ pk => pk
+  | .handed _ pk => pk
   | _ => true
 
 def execIds (evs : List Ev) : List Nat := evs.filterMap Ev.execId
